@@ -21,7 +21,7 @@ RULE = ('Cases: one input set per case and command; the command is run once with
         'column multiset up to order and whole-column complement for reference-free lo (+ identical indel record set).  Where an '
         'absolute oracle exists (model table for build, C04 model for map, C14 model for distance, planted truth for lo) the '
         'single-threaded result is also judged, so "all runs equally wrong" is not a pass.  Sample counts '
-        '{1,2,9,10,19,20,21,39,40,45} for build/align/map (both sides of the 10-samples-per-thread rule), sequence-file and .skf '
+        '{1,2,9,10,19,20,21,39,40,45,70,79,80,150,165} for build (both sides of the 10-samples-per-thread rule, up to four levels of the recursive split) and a subset for align/map, sequence-file and .skf '
         'inputs for align and map, lo on isolated-variant and on clustered-variant/repeat/indel inputs.  The hook log gives the '
         '(site, item, thread) sequence of every run; evidence reports distinct schedules per command.  Thorough adds a '
         'ThreadSanitizer build of every parallel command.  Non-trivial: a command run with > 1 thread and > 1 parallel work '
@@ -31,7 +31,7 @@ ASSUMPTIONS = ['schedules are perturbed (thread counts, jitter, pinning, sanitiz
 CMDS = ['build', 'align-fasta', 'align-skf', 'map-fasta', 'map-skf', 'distance', 'lo-ref', 'lo-free', 'lo-ref-clustered', 'lo-free-clustered']
 REQUIRED = {t: ['cmd:' + c for c in CMDS] + ['runs_compared', 'jitter_runs', 'pinned_runs', 'threads_above_cores',
                                             'parallel_build_split_used'] for t in ('quick', 'thorough')}
-SAMPLE_COUNTS = [1, 2, 9, 10, 19, 20, 21, 39, 40, 45]
+SAMPLE_COUNTS = [1, 2, 9, 10, 19, 20, 21, 39, 40, 45, 70, 79, 80, 150, 165]     # 70/150: third/fourth level of the recursive split
 THREADS = [1, 2, 3, 4, 6, 8, 16, 32]
 
 
@@ -42,12 +42,12 @@ def builds(tier):
 def plan(tier, seed, rng, scale):
     descs = []
     for cmd in CMDS:
-        reps = {'build': 10, 'align-fasta': 4, 'align-skf': 3, 'map-fasta': 6, 'map-skf': 4, 'distance': 5}.get(cmd, 6)
+        reps = {'build': 15, 'align-fasta': 4, 'align-skf': 3, 'map-fasta': 6, 'map-skf': 4, 'distance': 5}.get(cmd, 6)
         reps = int(reps * (4 if tier == 'quick' else 40) * scale) or 1
         for i in range(reps):
             d = {'cmd': cmd, 'seed': rng.getrandbits(32), 'nruns': 5 if tier == 'quick' else 9}
             if cmd in ('build', 'align-fasta', 'align-skf', 'map-fasta', 'map-skf'):
-                d['ns'] = SAMPLE_COUNTS[i % len(SAMPLE_COUNTS)] if cmd == 'build' else [10, 20, 40, 2, 21, 9, 39, 19, 45][i % 9]
+                d['ns'] = SAMPLE_COUNTS[i % len(SAMPLE_COUNTS)] if cmd == 'build' else [10, 20, 40, 2, 21, 9, 39, 19, 45, 70, 80][i % 11]
                 if cmd.startswith('align') or cmd.startswith('map'):
                     d['ns'] = max(2, d['ns'])
             descs.append(d)
@@ -61,7 +61,7 @@ def plan(tier, seed, rng, scale):
 
 def gen_population(rng, ns, k, glen=None):
     """ns related genomes: shared ancestor with a few substitutions each, some with an extra contig."""
-    glen = glen or rng.randint(6 * k, 14 * k)
+    glen = glen or (rng.randint(6 * k, 14 * k) if ns < 60 else rng.randint(3 * k, 6 * k))
     anc = G.rseq(rng, glen)
     samples = []
     for i in range(ns):
